@@ -18,14 +18,16 @@ Kinds4 == <<"required", "optional", "tuple", "vec">>
 VARIABLES kinds, edges
 vars == <<kinds, edges>>
 
-NodeKinds == {"struct", "alias", "enum"}
+NodeKinds == {"struct", "alias", "enum", "union"}
 KindIdx(k) == CHOOSE i \in DOMAIN EdgeKinds : EdgeKinds[i] = k
 
 EdgeLe(a, b) == \/ a.from < b.from
                 \/ a.from = b.from /\ a.to < b.to
                 \/ a.from = b.from /\ a.to = b.to /\ KindIdx(a.kind) <= KindIdx(b.kind)
 
-Init == kinds \in [1 .. N -> NodeKinds] /\ edges = << >>
+Init == /\ kinds \in [1 .. N -> NodeKinds]
+        /\ Cardinality({ n \in 1 .. N : kinds[n] = "union" }) <= 1
+        /\ edges = << >>
 
 OutDeg(es, n) == Cardinality({ i \in DOMAIN es : es[i].from = n })
 
@@ -76,9 +78,16 @@ EnumSchema(n) ==
                required |-> <<VarName(j)>>,
                additionalProperties |-> SFalse]])
 
+(* an anyOf with one branch per edge: typify renders it as an untagged enum when it proves the
+   branches exclusive and as a struct of flattened optional members otherwise *)
+UnionSchema(n) ==
+    LET out == Out(n) IN
+    IF Len(out) = 0 THEN SStr ELSE SAnyOf([j \in DOMAIN out |-> EdgeSchema(out[j])])
+
 DefSchema(n) == CASE kinds[n] = "struct" -> StructSchema(n)
                   [] kinds[n] = "alias"  -> AliasSchema(n)
                   [] kinds[n] = "enum"   -> EnumSchema(n)
+                  [] kinds[n] = "union"  -> UnionSchema(n)
 
 Doc == [defs |-> [d \in { NodeName(n) : n \in 1 .. N } |->
                     DefSchema(CHOOSE n \in 1 .. N : NodeName(n) = d)]]
